@@ -104,8 +104,14 @@ def gen_gs(rnd, big=False):
     elif rnd.random() < 0.5 and n_groups > 1:
         g = labels[0]  # a group without positives
         pg = [labels[1] if x == g else x for x in pg]
+    sdtype = "float64"
+    if style == "int" and rnd.random() < 0.5:
+        sdtype = rnd.choice(["int64", "uint8", "uint16", "int32"])
+        if sdtype.startswith("u"):
+            pos, neg = [abs(v) for v in pos], [abs(v) for v in neg]
+        pos, neg = [int(v) for v in pos], [int(v) for v in neg]
     spec = {
-        "pos": pos, "neg": neg, "pos_groups": pg, "neg_groups": ng, "gdtype": gdtype, "dtype": "float64",
+        "pos": pos, "neg": neg, "pos_groups": pg, "neg_groups": ng, "gdtype": gdtype, "dtype": sdtype,
         "score_class": rnd.choice(["pos", "neg"]), "equal_class": rnd.choice(["pos", "neg"]),
         "via": rnd.choice(["init", "init", "from_labels"]), "presorted": rnd.random() < 0.15,
         "swaps": rnd.choice([0, 0, 0, 1, 2]), "style": style,
@@ -114,6 +120,7 @@ def gen_gs(rnd, big=False):
         perm = list(range(npos + nneg))
         rnd.shuffle(perm)
         spec["perm"] = perm
+        spec["pos_label"] = rnd.choice([1, 1, 0, "p", True, False])
     elif rnd.random() < 0.3 and spec["swaps"] == 0:
         names = sorted(set(pg) | set(ng))
         rnd.shuffle(names)
@@ -242,7 +249,7 @@ class Model:
         return (np.sort(np.asarray([s for s, l in self.P if l == g], dtype=float)),
                 np.sort(np.asarray([s for s, l in self.N if l == g], dtype=float)))
 
-    def build_twin(self, spec_dtype="float64", gdtype="str"):
+    def build_twin(self, spec_dtype="float64", gdtype="str"):  # noqa: D401 - line-count twin only
         L = lib()
         gd = str if gdtype == "str" else np.int64
         pos = np.asarray([s for s, _ in self.P], dtype=spec_dtype)
